@@ -164,7 +164,8 @@ def run_vh(vh, family, work, tag, scenarios, nrand, rlen, seed, cfg, env=None, i
     m = re.search(r"VH family=\S+ scenarios=(\d+) steps=(\d+) lines=(\d+)", p.stdout)
     if not m:
         raise Infra("harness printed no summary: " + p.stdout[-2000:])
-    return out, {"scenarios": int(m.group(1)), "steps": int(m.group(2)), "lines": int(m.group(3))}
+    mc = re.search(r" cut=(\d+)", p.stdout)
+    return out, {"scenarios": int(m.group(1)), "steps": int(m.group(2)), "lines": int(m.group(3)), "cut": int(mc.group(1)) if mc else 0}
 
 
 REP = re.compile(r'^<<"(VIOL|NT|DRIFT|KNOWN)", "([^"]*)", (\d+)>>$')
